@@ -268,7 +268,9 @@ def instances(tier, seed):
                 n = len(exons)
                 shapes = ["follow", "elongated_left", "elongated_right", "shifted_site"]
                 for si, shape in enumerate(shapes):
-                    if q and ((ti + si + seed) % 4 != li or (locus == "alt_ends" and shape == "shifted_site")):
+                    light = {("skip", "T1", "follow"), ("skip", "T2", "elongated_right"), ("alt_ends", "T8", "follow"), ("skip", "T1", "elongated_left"),
+                             [("skip", "T2", "shifted_site"), ("skip", "T1", "shifted_site"), ("skip", "T2", "elongated_left")][seed % 3]}
+                    if q and (locus, tid, shape) not in light:
                         continue
                     out.append(Instance("mirror_assign[%s,%s,%s,%s]" % (locus, tid, shape, preset), h_assign_mirror(locus, tid, 0, n - 1, preset, shape), F,
                                         "locus %s and its mirror image, read %s %s" % (locus, shape, tid), weight=40 * n, budget_s=1500))
